@@ -20,6 +20,7 @@ def run(ctx):
     seen = lib_guards.analyse(ctx, P, funcs=FUNCS)
     lib_guards.presence(ctx, seen, funcs=FUNCS, P=P)
     lib_module.options_plumbing(ctx, P, funcs={"TableCollection_subset", "TableCollection_union", "TableCollection_canonicalise"})
+    lib_module.flags_consumed(ctx, P, funcs={"TableCollection_subset", "TableCollection_union", "TableCollection_canonicalise"})
     lib_module.array_flags(ctx, P, only=ms)
     lib_module.parsed_used(ctx, P, only=ms)
     lib_schema.argname(ctx, P, tus=("tables",), funcs=su)
